@@ -146,7 +146,8 @@ static Mat EIGS_eigenvectors(SVD *S, Index nvec)
     tc, R = cgen.emit(fc, "svd_compute", ret_c="Index", self_type="SVD", self_name="S", members=members, param_types={"tol": "Scalar"},
                       extra_rules=[("init", r"S->m_eigs->init\(\);", "EIGS_init(S);", {"max": 1}),
                                    ("compute", r"S->m_eigs->compute\(([^;]+)\);", r"EIGS_compute(S, \1);", {"max": 1}),
-                                   ("invalidate", r"S->m_evecs\.resize\(0, 0\);", "S->m_evecs = MAT_NEW(0, 0);", {"min": 0, "max": 1})],
+                                   ("invalidate", r"S->m_evecs\.resize\(0, 0\);", "S->m_evecs = MAT_NEW(0, 0);", {"min": 0, "max": 1}),
+                                   ("cols", r"S->m_evecs\.cols\(\)", "S->m_evecs.cols", {"min": 0})],
                       contract=sc.frame_contract(), maythrow=["EIGS_init", "EIGS_compute"])
     report["PartialSVDSolver::compute"] = R.fired
     alloc = ("  SVD Sv; SVD *S = &Sv; S->m_m = nondet_Index(); S->m_n = nondet_Index(); S->op_dim = nondet_Index(); S->op_kind = nondet_int(); char o1, o2; S->m_op = nondet_bool() ? &o1 : NULL; S->m_eigs = nondet_bool() ? &o2 : NULL;\n"
